@@ -218,6 +218,7 @@ def fingerprint():
         "dw_order": [dws.index(d) for d in set(dws)],
         "tag_order": [Canon().ref(t) for t in tags],
         "ids": [hex(id(object())), hex(id(pt.Placeholder)), hex(id(TagA))],
+        "debug": __debug__,
     }
 
 
